@@ -205,10 +205,22 @@ package message
 //@   monitor closedLock guards closed
 //@   invariant r.handlers != nil [mon:handlersLock:handlers-map-exists]
 
+//@ spec routerBuilt(r *Router) bool := r != nil && r.handlersLock != nil && r.handlersWg != nil && r.runningHandlersWg != nil && r.runningHandlersWgLock != nil && r.middlewaresLock != nil && r.handlerAdded != nil && r.closingInProgressCh != nil && r.closedCh != nil && r.running != nil
+
+//@ func newRouter
+//@   nopanic
+//@   ensures routerBuilt(result) && fresh(result) && result.handlers != nil && fresh(result.handlers) && (forall k string :: !has(result.handlers, k)) && !result.closed && !result.isRunning [fresh-router-with-its-own-locks-channels-and-empty-handler-table]
+//@   ensures fresh(result.handlersWg) && fresh(result.runningHandlersWg) && fresh(result.closingInProgressCh) && fresh(result.closedCh) && fresh(result.running) && !closed(result.closingInProgressCh) && !closed(result.closedCh) && !closed(result.running) && len(result.middlewares) == 0 [nothing-closed-nothing-registered]
+
+//@ func NewRouter
+//@   nopanic
+//@   ensures result1 == nil ==> routerBuilt(result0) && fresh(result0) [built]
+//@   ensures result1 != nil ==> result0 == nil
+
 //@ func (*Router).AddHandler
 //@   ghost label ADDH
 //@   ghost atomic
-//@   requires r != nil && r.handlersLock != nil && r.handlersWg != nil && r.handlers != nil
+//@   requires r != nil && r.handlersLock != nil && r.handlersWg != nil
 //@   panics-when has(r.handlers, handlerName) [duplicate-name-panics]
 //@   ensures result != nil && fresh(result) && result.router == r && result.handler != nil && fresh(result.handler) [new-handler-record]
 //@   ensures has(r.handlers, handlerName) && r.handlers[handlerName] == result.handler [registered-under-its-name]
@@ -228,8 +240,59 @@ package message
 //@   panics-ensures panicked(NPH, old(calls(NPH)))
 
 //@ func (*Router).AddNoPublisherHandler
-//@   requires r != nil && r.handlersLock != nil && r.handlersWg != nil && r.handlers != nil
+//@   requires r != nil && r.handlersLock != nil && r.handlersWg != nil
 //@   ensures result != nil && result.handler != nil && has(r.handlers, handlerName) && r.handlers[handlerName] == result.handler [registered-under-its-name]
 //@   ensures result.handler.name == handlerName && result.handler.subscriber == subscriber && result.handler.subscribeTopic == subscribeTopic && result.handler.publishTopic == "" && hasdyntype(result.handler.publisher, "message.disabledPublisher") [no-publish-topic-and-a-publisher-that-refuses]
 //@   ensures isclosure(result.handler.handlerFunc, "message.(*Router).AddNoPublisherHandler$1") && closurevar(result.handler.handlerFunc, 0) == handlerFunc [adapter-around-the-given-function]
 //@   modifies map(r.handlers), wg(r.handlersWg)
+
+//@ func init$1
+//@   nopanic
+//@   ensures result1 == nil && len(result0) == 1 && result0[0] == msg [passes-the-very-message-through]
+
+// ---- middlewares and decorators (C09) ----
+
+//@ spec mwAt(r *Router, i int) middleware := r.middlewares[i]
+
+//@ func (*Router).addRouterLevelMiddleware
+//@   requires r != nil
+//@   nopanic
+//@   ensures len(r.middlewares) == old(len(r.middlewares)) + len(m) [appended-in-call-order]
+//@   ensures forall i int :: 0 <= i && i < old(len(r.middlewares)) ==> r.middlewares[i].Handler == old(r.middlewares[i].Handler) && r.middlewares[i].HandlerName == old(r.middlewares[i].HandlerName) && r.middlewares[i].IsRouterLevel == old(r.middlewares[i].IsRouterLevel) [earlier-registrations-keep-their-place]
+//@   ensures forall j int :: 0 <= j && j < len(m) ==> r.middlewares[old(len(r.middlewares)) + j].Handler == m[j] && r.middlewares[old(len(r.middlewares)) + j].IsRouterLevel && r.middlewares[old(len(r.middlewares)) + j].HandlerName == "" [new-ones-are-router-level]
+//@   inv loop 1: len(r.middlewares) == old(len(r.middlewares)) + rangeindex + 1 [count]
+//@   inv loop 1: forall i int :: 0 <= i && i < old(len(r.middlewares)) ==> r.middlewares[i].Handler == old(r.middlewares[i].Handler) && r.middlewares[i].HandlerName == old(r.middlewares[i].HandlerName) && r.middlewares[i].IsRouterLevel == old(r.middlewares[i].IsRouterLevel) [prefix-kept]
+//@   inv loop 1: forall j int :: 0 <= j && j <= rangeindex ==> r.middlewares[old(len(r.middlewares)) + j].Handler == m[j] && r.middlewares[old(len(r.middlewares)) + j].IsRouterLevel && r.middlewares[old(len(r.middlewares)) + j].HandlerName == "" [appended-so-far]
+//@   inv loop 1: forall j int :: 0 <= j && j < len(m) ==> m[j] == old(m[j]) [arguments-unchanged]
+//@   modifies r.middlewares
+
+//@ func (*Router).addHandlerLevelMiddleware
+//@   requires r != nil && r.middlewaresLock != nil
+//@   nopanic
+//@   ensures len(r.middlewares) == old(len(r.middlewares)) + len(m) [appended-in-call-order]
+//@   ensures forall i int :: 0 <= i && i < old(len(r.middlewares)) ==> r.middlewares[i].Handler == old(r.middlewares[i].Handler) && r.middlewares[i].HandlerName == old(r.middlewares[i].HandlerName) && r.middlewares[i].IsRouterLevel == old(r.middlewares[i].IsRouterLevel) [earlier-registrations-keep-their-place]
+//@   ensures forall j int :: 0 <= j && j < len(m) ==> r.middlewares[old(len(r.middlewares)) + j].Handler == m[j] && !r.middlewares[old(len(r.middlewares)) + j].IsRouterLevel && r.middlewares[old(len(r.middlewares)) + j].HandlerName == handlerName [new-ones-belong-to-that-handler-only]
+//@   inv loop 1: len(r.middlewares) == old(len(r.middlewares)) + rangeindex + 1 [count]
+//@   inv loop 1: forall i int :: 0 <= i && i < old(len(r.middlewares)) ==> r.middlewares[i].Handler == old(r.middlewares[i].Handler) && r.middlewares[i].HandlerName == old(r.middlewares[i].HandlerName) && r.middlewares[i].IsRouterLevel == old(r.middlewares[i].IsRouterLevel) [prefix-kept]
+//@   inv loop 1: forall j int :: 0 <= j && j <= rangeindex ==> r.middlewares[old(len(r.middlewares)) + j].Handler == m[j] && !r.middlewares[old(len(r.middlewares)) + j].IsRouterLevel && r.middlewares[old(len(r.middlewares)) + j].HandlerName == handlerName [appended-so-far]
+//@   inv loop 1: forall j int :: 0 <= j && j < len(m) ==> m[j] == old(m[j]) [arguments-unchanged]
+//@   modifies r.middlewares
+
+//@ spec app(m HandlerMiddleware, f HandlerFunc) HandlerFunc
+//@ spec applies(mw middleware, name string) bool := mw.IsRouterLevel || mw.HandlerName == name
+//@ spec wrap(ms []middleware, i int, name string, f HandlerFunc) HandlerFunc := i >= len(ms) ? f : (applies(ms[i], name) ? app(ms[i].Handler, wrap(ms, i + 1, name, f)) : wrap(ms, i + 1, name, f)) decreases len(ms) - i
+
+//@ func (*handler).run
+//@   requires h != nil && h.runningHandlersWg != nil && h.runningHandlersWgLock != nil && h.messagesCh != nil && h.handlerFunc != nil
+//@   requires forall i int :: 0 <= i && i < len(middlewares) ==> middlewares[i].Handler != nil
+//@   assume forall m HandlerMiddleware, f HandlerFunc :: m != nil && f != nil ==> app(m, f) != nil [ASSUMED-a-middleware-returns-a-handler]
+//@   ghost recv-nonnil h.messagesCh
+//@   callee MW = currentMiddleware.Handler : function app
+//@   callee PC = h.publisher.Close
+//@   inv loop 1: 0 - 1 <= i && i < len(middlewares) && middlewareHandler == wrap(middlewares, i + 1, h.name, h.handlerFunc) && middlewareHandler != nil && calls(PC) == old(calls(PC)) && wgtoken(h.runningHandlersWg) == old(wgtoken(h.runningHandlersWg)) [nesting-built-from-the-inside-out]
+//@   inv loop 2: middlewareHandler == wrap(middlewares, 0, h.name, h.handlerFunc) && middlewareHandler != nil && calls(PC) == old(calls(PC)) && wgtoken(h.runningHandlersWg) == old(wgtoken(h.runningHandlersWg)) [chain-fixed-while-consuming]
+//@   assert @go:(*handler).handleMessage: goarg0 == h && goarg2 == wrap(middlewares, 0, h.name, h.handlerFunc) && recvs(h.messagesCh) >= 1 && goarg1 == recvd(h.messagesCh, recvs(h.messagesCh) - 1) [every-received-message-goes-to-this-handlers-chain]
+//@   ensures h.publisher != nil ==> calls(PC) == old(calls(PC)) + 1 [publisher-closed-once-when-the-subscription-ends]
+//@   ensures h.publisher == nil ==> calls(PC) == old(calls(PC))
+//@   ensures wgtoken(h.runningHandlersWg) == old(wgtoken(h.runningHandlersWg)) [every-token-added-was-handed-to-an-invocation]
+//@   panics-ensures calls(PC) == old(calls(PC)) + 1 && panicked(PC, old(calls(PC)))
